@@ -489,6 +489,13 @@ type Stats struct {
 // Explore runs the deviation-bounded DFS. check is called for every
 // execution; a non-empty return is a violation.
 func Explore(t *testing.T, sc *Scenario, bound int, maxExec int, check func(x *Exec) string) *Stats {
+	return ExploreShard(t, sc, bound, maxExec, 0, 1, check)
+}
+
+// ExploreShard explores the part of the DFS tree whose first deviation lies
+// at a point i with i % nshards == shard (every shard runs the deviation-free
+// execution itself), so that one scenario can be spread over worker processes.
+func ExploreShard(t *testing.T, sc *Scenario, bound int, maxExec int, shard, nshards int, check func(x *Exec) string) *Stats {
 	st := &Stats{Outcomes: map[string]int{}}
 	var rec func(prefix []int, spent int)
 	rec = func(prefix []int, spent int) {
@@ -527,6 +534,9 @@ func Explore(t *testing.T, sc *Scenario, bound int, maxExec int, check func(x *E
 			st.FirstBad, st.FirstBadWhy = x, why
 		}
 		for i := len(prefix); i < len(x.Choices); i++ {
+			if len(prefix) == 0 && nshards > 1 && i%nshards != shard {
+				continue
+			}
 			for alt := 1; alt < x.NAlts[i]; alt++ {
 				c := x.Costs[i][alt]
 				if c == 0 {
